@@ -328,7 +328,16 @@ class Evaluator:
 
     def call(self, e, env, eff):
         ft = u(e.func)
-        args = [self.ev(a, env, eff) for a in e.args]
+        args = []
+        for a in e.args:
+            if isinstance(a, ast.Starred):
+                v = self.ev(a.value, env, eff)
+                if isinstance(v, tuple) and not is_sym_bool(v):
+                    args.extend(v)
+                else:
+                    args.append(Opq('*' + u(a.value)))
+            else:
+                args.append(self.ev(a, env, eff))
         kw = {k.arg: self.ev(k.value, env, eff) for k in e.keywords}
         if ft in self.hooks:
             return self.hooks[ft](args, kw, env, eff)
